@@ -200,6 +200,32 @@ Definition dec_case (input0 : sx) : option case :=
   | _ => None
   end.
 
+(* CopyInfo.FollowLinks (bit 16 of the optional 7th field).  FollowLinks only changes how the
+   LAST component of the literal base of a wildcard pattern and of every source path is resolved
+   (rootPath): when none of them is a symlink the call behaves exactly as with FollowLinks off,
+   which is what the model describes; a case in which FollowLinks has something to follow is
+   outside the model *)
+Definition case_follow (input0 : sx) : bool :=
+  match input0 with
+  | SL [_; _; _; _; _; _; SN hm] => N.odd (hm / 16)
+  | _ => false
+  end.
+Definition wild_base_is_link (sroot : snode) (src : bytes) : bool :=
+  let cs0 := match src with [] => [[]] | _ => comps (clean src) end in
+  let cs := map (fun c => match c with [] => [sep] | _ => c end) cs0 in
+  let '(p1, p2) := split_wild_e cs in
+  let d1 := match p1 with [] => [] | _ => clean (joinc p1) end in
+  match p2 with
+  | [] => false
+  | _ => match s_resolve sroot (rooted d1) with inl n => is_lnk (sdent n) | inr _ => false end
+  end.
+Definition follow_touches (c : case) : bool :=
+  (o_wild (k_opts c) && wild_base_is_link (k_src c) (k_srcarg c)) ||
+  match (if o_wild (k_opts c) then resolve_wild (k_src c) (k_srcarg c) else inl [k_srcarg c]) with
+  | inl l => existsb (fun s => match s_resolve (k_src c) (rooted s) with inl sn => is_lnk (sdent sn) | inr _ => false end) l
+  | inr _ => false
+  end.
+
 Definition model_run (c : case) (fs : fsys) : fsys * sx * bool :=
   let '(st, e) := copy_top (k_opts c) all_selected (k_src c) fs (k_srcarg c) (k_dstarg c) in
   (c_fs st, SL [SN (err_class e); enc_notifs (c_notifs st); enc_entries (fs_list (c_fs st))], c_split st).
@@ -407,7 +433,7 @@ Definition run_1301 (input impl : sx) : sx :=
   match dec_case input, canon_output impl with
   | Some c, Some ci =>
     let m := model_output c in
-    if out_of_scope m then v_ok else
+    if out_of_scope m || (case_follow input && follow_touches c) then v_ok else
     match impl with
     | SL [r1; s] =>
       match dec_run r1 with
@@ -430,7 +456,7 @@ Definition run_1501 (input impl : sx) : sx :=
   match dec_case input, canon_output impl with
   | Some c, Some ci =>
     let m := model_output c in
-    if out_of_scope m then v_ok else
+    if out_of_scope m || (case_follow input && follow_touches c) then v_ok else
     match impl with
     | SL [r1; r2; s] =>
       match dec_run r1, dec_run r2 with
@@ -457,4 +483,110 @@ Definition run_1501 (input impl : sx) : sx :=
     | _ => v_malformed
     end
   | _, _ => v_malformed
+  end.
+
+(* kind 1303 (C13): one sparse regular file of [size] bytes, copied alone or with its directory:
+   the copy has the same size and the same bytes in every probed window *)
+Definition dec_mark (s : sx) : option (N * bytes) :=
+  match s with SL [SN o; SB b] => Some (o, b) | _ => None end.
+Definition dec_probe (s : sx) : option (N * N) :=
+  match s with SL [SN o; SN l] => Some (o, l) | _ => None end.
+Definition run_1303 (input impl : sx) : sx :=
+  match input with
+  | SL [SN size; marks; probes; _] =>
+    match sx_list dec_mark marks, sx_list dec_probe probes with
+    | Some ms, Some ps =>
+      let m := SL [SN 0; SN size; SL (map (fun p => SB (sp_read ms size (fst p) (N.to_nat (snd p)))) ps)] in
+      (* the specification itself: same size, same bytes in every window *)
+      verdict m impl (sx_eqb m impl) (tag [99;111;110;116;101;110;116] [])
+    | _, _ => v_malformed
+    end
+  | _ => v_malformed
+  end.
+
+(* kind 1502 (C15): include / exclude patterns (what they select is C16's model), the copy applied
+   twice.  When the first application succeeded and the landing path is the same for both (the
+   resolved dst is an existing directory of the initial destination: a directory source lands on
+   its own name inside it or - dir-contents - on it, a non-directory inside it), the second one
+   succeeds too and changes nothing (same_state_b); the source is left alone. *)
+Definition stable_landing (c : case) : bool :=
+  let X0 := xview_of (view_of_fs (k_dst c)) in
+  match spec_resolve X0 (clean (k_dstarg c)), s_resolve (k_src c) (rooted (k_srcarg c)) with
+  | inl D, inl _ => x_isdir (X0 D)
+  | _, _ => false
+  end.
+Fixpoint kids_ok (n : snode) {struct n} : bool :=
+  match n with
+  | SNode _ _ d kids => (is_dir d || match kids with [] => true | _ => false end) && forallb kids_ok kids
+  end.
+
+(* signature of the finding filtered-parent-dir-mode-option: with include / exclude patterns a
+   source directory that is not selected itself is created on demand (createParentDirs) and gets
+   copyFileInfo, i.e. the Mode / ModeStr option, only when it is NEW; when it already exists
+   copyDirectoryOnly chmods it to the raw source mode and copyFileInfo is skipped.  So the first
+   copy leaves the option's mode and the repeated copy the source's mode.
+   Computed from the case: a Mode or ModeStr option and patterns are given, and every entry that
+   the second application changed is a directory below the landing path that corresponds to a
+   source directory, differs in nothing but the mode, had the option's mode after the first
+   application and has the source's raw permission + setuid/setgid/sticky bits after the second *)
+Definition sig_parent_mode : bytes :=
+  [102;105;108;116;101;114;101;100;45;112;97;114;101;110;116;45;100;105;114;45;109;111;100;101;45;111;112;116;105;111;110].
+Definition with_mode (m : N) (d : dent) : dent :=
+  {| d_mode := m; d_uid := d_uid d; d_gid := d_gid d; d_mtime := d_mtime d; d_rdev := d_rdev d;
+     d_target := d_target d; d_xattrs := d_xattrs d; d_content := d_content d |}.
+Definition parent_mode_sig (c : case) (has_patterns : bool) (a1 a2 : elist) : bool :=
+  let o := k_opts c in
+  let X0 := xview_of (view_of_fs (k_dst c)) in
+  let V1 := view_of_list a1 in let V2 := view_of_list a2 in
+  let ps := sort_paths (paths_of_list a1 ++ paths_of_list a2) in
+  has_patterns &&
+  (match o_mode o, o_modestr o with None, [] => false | _, _ => true end) &&
+  forallb (fun p => forallb (idem_keys V1 V2 p) ps) ps &&
+  match spec_resolve X0 (clean (k_dstarg c)), s_resolve (k_src c) (rooted (k_srcarg c)),
+        (match o_modestr o with [] => Some None | ms => option_map Some (parse_mode ms) end) with
+  | inl D, inl sn, Some ms =>
+    let L := landing o sn (k_srcarg c) D X0 in
+    forallb (fun p =>
+      idem_at V1 V2 p ||
+      match V1 p, V2 p, strip_prefix L p with
+      | Some (_, d1), Some (_, d2), Some rel =>
+        match s_lookup sn rel with
+        | Some sd =>
+          is_dir (sdent sd) && is_dir d1 && is_dir d2 &&
+          idem_dent (with_mode (d_mode d2) d1) d2 &&
+          N.eqb (perm12 d1) (info_mode o ms (sdent sd)) && N.eqb (perm12 d2) (perm12 (sdent sd))
+        | None => false
+        end
+      | _, _, _ => false
+      end) ps
+  | _, _, _ => false
+  end.
+
+Definition t_second_class : bytes := [115;101;99;111;110;100;45;99;108;97;115;115].   (* "second-class" *)
+Definition run_1502 (input impl : sx) : sx :=
+  match input with
+  | SL [sv; dv; src; dst; os; sec; SL inc; SL exc] =>
+    match dec_case (SL [sv; dv; src; dst; os; sec]), canon_output impl with
+    | Some c, Some ci =>
+      if negb (kids_ok (k_src c) && kids_ok (k_dst0 c)) then v_malformed else
+      match impl with
+      | SL [r1; r2; s] =>
+        match dec_run r1, dec_run r2 with
+        | Some (cls1, _, a1), Some (cls2, _, a2) =>
+          if o_wild (k_opts c) || negb (stable_landing c) then v_ok else
+          if negb (src_unchanged c s) then v_specfail ci (tag t_source []) else
+          if negb (N.eqb cls1 0) then v_ok else
+          if negb (N.eqb cls2 0) then v_specfail ci (tag t_second_class [SN cls2]) else
+          if same_state_b (view_of_list a1) (view_of_list a2) (sort_paths (paths_of_list a1 ++ paths_of_list a2))
+          then v_ok
+          else if parent_mode_sig c (match inc, exc with [], [] => false | _, _ => true end) a1 a2
+          then v_specfail ci (SL [SL [SB [115;105;103]; SB sig_parent_mode]; tag t_idem []])
+          else v_specfail ci (tag t_idem [])
+        | _, _ => v_malformed
+        end
+      | _ => v_malformed
+      end
+    | _, _ => v_malformed
+    end
+  | _ => v_malformed
   end.
